@@ -488,35 +488,60 @@ func c09r5(c *Check) {
 		pos = c.At(rat)
 	}
 	c.Judge(rr != "" && rr == wr && rr == "pos > maxBytesPerFile", "nsqd reader and writer roll segments on the same condition", pos, "both: "+rr, fmt.Sprintf("the reader rolls to the next segment when %q but the writer when %q: when a record ends exactly at the limit one side has moved on and the other has not — a record is skipped (its segment deleted unread) or the reader spins on a file that is never written", rr, wr))
-	// length header: int32 big endian on both sides
-	hdr := func(fn *ssa.Function, callee string, argIdx int) (string, bool) {
-		res := ""
-		be := false
-		allInstrsW(fn, func(in ssa.Instruction) {
-			call, ok := in.(*ssa.Call)
-			if !ok || calleeName(call.Common()) != callee {
-				return
-			}
-			if mi, ok := call.Call.Args[1].(*ssa.MakeInterface); ok {
-				if u, ok := mi.X.(*ssa.UnOp); ok {
-					if g, ok := u.X.(*ssa.Global); ok && g.Name() == "BigEndian" {
-						be = true
+	// length header: the same fixed-width integer encoding on both sides — 4 bytes, big endian —
+	// whichever API encodes / decodes it (intcodec.go); the writer encodes the length of the record
+	hdr := func(fn *ssa.Function, decode bool) (desc string, ok bool, vals []ssa.Value) {
+		ok = true
+		n := 0
+		for _, g := range workerFuncs(c.P, fn) {
+			for _, s := range intCodecSites(g) {
+				if s.Decode != decode {
+					continue
+				}
+				n++
+				order := "unknown byte order"
+				if s.OrderKnown {
+					order = "little-endian"
+					if s.BE {
+						order = "big-endian"
 					}
 				}
-			}
-			if mi, ok := call.Call.Args[argIdx].(*ssa.MakeInterface); ok {
-				t := mi.X.Type()
-				if p, ok := t.(*types.Pointer); ok {
-					t = p.Elem()
+				desc += fmt.Sprintf("%d bytes %s; ", s.Width, order)
+				if !s.OrderKnown || !s.BE || s.Width != 4 {
+					ok = false
 				}
-				res = t.String()
+				if s.Val != nil {
+					vals = append(vals, s.Val)
+				}
 			}
-		})
-		return res, be
+		}
+		return strings.TrimSuffix(desc, "; "), ok && n > 0, vals
 	}
-	rt, rbe := hdr(ro, "encoding/binary.Read", 2)
-	wt, wbe := hdr(wo, "encoding/binary.Write", 2)
-	c.Judge(rt == "int32" && wt == "int32" && rbe && wbe, "nsqd record header: big-endian int32 on both sides", c.AtFn(wo), "writer and reader agree on the length header", fmt.Sprintf("reader decodes %s (big-endian=%v), writer encodes %s (big-endian=%v)", rt, rbe, wt, wbe))
+	rd, rok, rvals := hdr(ro, true)
+	wd, wok, wvals := hdr(wo, false)
+	// what the writer encodes is the length of the record it was given
+	wlen := len(wvals) > 0
+	for _, v := range wvals {
+		for d := 0; d < 6; d++ {
+			if x, ok := v.(*ssa.Convert); ok {
+				v = x.X
+			} else if x, ok := v.(*ssa.ChangeType); ok {
+				v = x.X
+			} else {
+				break
+			}
+		}
+		isLen := false
+		if x, ok := v.(*ssa.Call); ok {
+			if b, ok := x.Call.Value.(*ssa.Builtin); ok && b.Name() == "len" && x.Call.Args[0] == ssa.Value(wo.Params[1]) {
+				isLen = true
+			}
+		}
+		if !isLen {
+			wlen = false
+		}
+	}
+	c.Judge(rok && wok && wlen, "nsqd record header: big-endian int32 on both sides", c.AtFn(wo), "writer and reader agree on the length header: "+wd+" holding len(data) / "+rd, fmt.Sprintf("reader decodes [%s], writer encodes [%s] (of len(data): %v): both must be 4 bytes big-endian holding the record's length", rd, wd, wlen))
 	// record size 4 + len
 	four := func(fn *ssa.Function) bool {
 		ok := false
@@ -575,16 +600,14 @@ func c09r5(c *Check) {
 		sort.Strings(out)
 		return out
 	}
-	var hdrAlloc ssa.Value
-	allInstrsW(ro, func(in ssa.Instruction) {
-		if call, ok := in.(*ssa.Call); ok && calleeName(call.Common()) == "encoding/binary.Read" {
-			if mi, ok := call.Call.Args[2].(*ssa.MakeInterface); ok {
-				hdrAlloc = mi.X
+	// the decoded header: the variable binary.Read fills, or the result of ByteOrder.UintNN
+	rl := limits(ro, func(v ssa.Value) bool {
+		for _, h := range rvals {
+			if derivedFrom(v, h, map[ssa.Value]bool{}) {
+				return true
 			}
 		}
-	})
-	rl := limits(ro, func(v ssa.Value) bool {
-		return hdrAlloc != nil && derivedFrom(v, hdrAlloc, map[ssa.Value]bool{})
+		return false
 	})
 	wl := limits(wo, func(v ssa.Value) bool {
 		// len(data) of the record being written
